@@ -36,6 +36,8 @@ def run(ctx) -> None:
         ctx.reuse("C08.device-hook", c01.numbering_hook, dev)
     for name, track in (("evo_aspirate", "remove"), ("evo_dispense", "add")):
         ctx.reuse("C08.evo-grid", c13.same_args, name, track)
+    # the well ranges of a reagent distribution are positions of the same numbering (whole source column, first..last destination)
+    ctx.reuse("C08.device-hook", c01.pair_distribute, "C01.pair-distribute")
     ctx.guard("C08.regex", regex_agreement)
     ctx.guard("C08.id-template", id_templates)
     ctx.guard("C08.id-template", grid_construction)
